@@ -1,0 +1,22 @@
+//go:build verif
+
+// Contracts for package utils (timer, event handler pool). Comment-only.
+package utils
+
+//@ field[C20] EventHandlerPool.pool: guarded_by(mu)
+//@ field[C20] Timer.lastUpdate: guarded_by(mu)
+
+// Trigger: the handlers registered for e are called in registration order until
+// one returns false. trigN/trigAt (ghosts declared with the session contracts)
+// log the events raised. The handlers themselves are application or session
+// closures; what they do is stated where they are registered.
+//@ func (evp *EventHandlerPool) Trigger(e Event)
+//@   requires evp != nil
+//@   callback app
+//@   modifies trigN, trigAt, routerStopped, timersStarted
+//@   epilogue trigAt = upd(trigAt, trigN, e)
+//@   epilogue trigN = trigN + 1
+//@   ensures[C09,C15] trigN == old(trigN) + 1 && sel(trigAt, old(trigN)) == e
+//@   loop 1:
+//@     invariant 0 <= iter
+//@     decreases len(handlers) - iter
